@@ -41,6 +41,9 @@ func (in *Interp) findByName(name string, fn *ssa.Function) intrinsic {
 			return in.callFn(hf, args, nil, in.curFrame)
 		}
 	}
+	if in.P.Nops[name] {
+		return func(in *Interp, fn *ssa.Function, _ []Value) Value { return zeroResults(fn) }
+	}
 	if fn.Blocks == nil && fn.Pkg != nil {
 		if f, ok := harnessIntrinsics[fn.Name()]; ok {
 			return f
